@@ -140,14 +140,16 @@ def pre (m : Mem) (a : PutArgs) : Mem :=
 
 theorem putTail_acked (m : Mem) (a : PutArgs) (sup reuse : Option Nat) (t : Trace)
     (h : (m.putTail a sup reuse t).2.isAck = true) :
-    (m.putTail a sup reuse t).1 = ((m.appendPut a sup reuse).afterAppend t).addCards a.nc (m.seq + 1) := by
+    (m.putTail a sup reuse t).1 = ((m.appendPut a sup reuse).afterAppend t).addCards a.nc m.nextFrameId := by
   unfold Mem.putTail at h ⊢
   split
   · rename_i hc; rw [if_pos hc] at h; cases h
-  · rfl
+  · split
+    · rename_i hc hc2; rw [if_neg hc, if_pos hc2] at h; cases h
+    · rfl
 
 theorem put_acked (m : Mem) (a : PutArgs) (t : Trace) (h : (m.put a t).2.isAck = true) :
-    (m.put a t).1 = (((pre m a).appendPut a none none).afterAppend t).addCards a.nc ((pre m a).seq + 1) := by
+    (m.put a t).1 = (((pre m a).appendPut a none none).afterAppend t).addCards a.nc (pre m a).nextFrameId := by
   unfold Mem.put Mem.putCore at h ⊢
   unfold pre
   split at h
@@ -257,7 +259,7 @@ theorem put_full {m0 m : Mem} {cd pd} (s : Start m0) (h : Mid m0 cd pd m) (hf : 
   rw [put_acked m a t hack]
   obtain ⟨h1, hf1⟩ := appendPut_inv h hf a hok
   obtain ⟨cd', pd', he, h2, hf2⟩ := afterAppend_full s h1 hf1 (by simp) t
-  have hs := same_addCards (((pre m a).appendPut a none none).afterAppend t) a.nc ((pre m a).seq + 1)
+  have hs := same_addCards (((pre m a).appendPut a none none).afterAppend t) a.nc (pre m a).nextFrameId
   exact ⟨cd', pd', by rw [he]; simp, hs.mid h2, hs.fullInv hf2⟩
 
 /-! ## Runs -/
